@@ -66,6 +66,7 @@ func DefaultSchema() *Schema {
 				l("in", []string{"id"}, lf("id", "uint", 8), lf("w", "string", 0))),
 			l("m", []string{"k1", "k2"}, lf("k1", "string", 0), lf("k2", "string", 0), lf("v", "string", 0)),
 			l("lx", []string{"k"}, lf("k", "string", 0), lf("v", "string", 0)),
+			l("lb", []string{"on"}, lf("on", "bool", 0), lf("v", "string", 0)),
 		),
 		c("t",
 			lf("i8", "int", 8), lf("i16", "int", 16), lf("i32", "int", 32), lf("i64", "int", 64),
